@@ -135,6 +135,7 @@ fn main() {
     let tier = std::env::var("VERIF_TIER").unwrap_or_else(|_| "quick".to_string());
     let tier = tier.as_str();
     let seed: u64 = std::env::var("VERIF_SEED").ok().and_then(|s| s.parse().ok()).unwrap_or(1);
+    let strict = args.iter().any(|a| a == "--strict-reset");
     let limit: Option<usize> = args.iter().position(|a| a == "--limit").and_then(|i| args.get(i + 1)).and_then(|s| s.parse().ok());
     match sub {
         // evaluate requests read from stdin (replays, corpus)
@@ -297,18 +298,18 @@ fn main() {
             out.stat("evaluations", n); out.stat("nontrivial", n);
         }
         // scanners: product exploration to a fixpoint and seeded random histories
-        "cc-explore" => { let chans: Vec<u32> = args[2..].iter().filter_map(|s| s.parse().ok()).collect(); scan::explore(&mut out, "cc", &chans, 2_000_000); }
-        "pn-explore" => { let chans: Vec<u32> = args[2..].iter().filter_map(|s| s.parse().ok()).collect(); scan::explore(&mut out, "pn", &chans, 2_000_000); }
-        "cc-random" => { let (h, l) = if tier == "thorough" { (40_000, 80) } else { (5_000, 60) }; scan::random_histories(&mut out, "cc", seed, h, l); }
-        "pn-random" => { let (h, l) = if tier == "thorough" { (40_000, 80) } else { (5_000, 60) }; scan::random_histories(&mut out, "pn", seed, h, l); }
+        "cc-explore" => { let chans: Vec<u32> = args[2..].iter().filter_map(|s| s.parse().ok()).collect(); scan::explore(&mut out, "cc", &chans, if tier == "thorough" { 200_000 } else { 3_000 }, strict); }
+        "pn-explore" => { let chans: Vec<u32> = args[2..].iter().filter_map(|s| s.parse().ok()).collect(); scan::explore(&mut out, "pn", &chans, if tier == "thorough" { 200_000 } else { 3_000 }, strict); }
+        "cc-random" => { let (h, l) = if tier == "thorough" { (40_000, 80) } else { (5_000, 60) }; scan::random_histories(&mut out, "cc", seed, h, l, strict); }
+        "pn-random" => { let (h, l) = if tier == "thorough" { (40_000, 80) } else { (5_000, 60) }; scan::random_histories(&mut out, "pn", seed, h, l, strict); }
         #[cfg(feature = "std")]
         "pp-explore" => {
             let timeout: u64 = args[2].parse().unwrap();
             let chans: Vec<u32> = args[3..].iter().filter_map(|s| s.parse().ok()).collect();
-            poll::explore(&mut out, &chans, timeout, 3_000_000);
+            poll::explore(&mut out, &chans, timeout, if tier == "thorough" { 100_000 } else { 5_000 }, strict);
         }
         #[cfg(feature = "std")]
-        "pp-random" => { let (h, l) = if tier == "thorough" { (60_000, 80) } else { (6_000, 60) }; poll::random_histories(&mut out, seed, h, l); }
+        "pp-random" => { let (h, l) = if tier == "thorough" { (60_000, 80) } else { (6_000, 60) }; poll::random_histories(&mut out, seed, h, l, strict); }
         #[cfg(feature = "std")]
         "pp-sentences" => { let (u, r, l) = if tier == "thorough" { (5, 4, 60_000) } else { (3, 4, 3_000) }; poll::sentences(&mut out, seed, u, r, l); }
         #[cfg(feature = "std")]
